@@ -139,6 +139,13 @@ func execC13(e *Env, p *Plan) error {
 				c.SetQueryFault(f.Name, nil)
 			}
 			e.Sleep(3 * time.Second)
+			for _, f := range op.Sub {
+				if f.K == "hang" {
+					// a hung handler comes back a minute after it was called
+					e.Sleep(time.Minute)
+					break
+				}
+			}
 		case "dq":
 			if v := c13Deadline(e, d, op); v != nil {
 				return v
